@@ -552,6 +552,64 @@ Proof.
   rewrite Hq. rewrite (cache_image_over_limit ly cached q' n m Hn Hm Hle). eauto.
 Qed.
 
+(* WMS-C: a tiled=true query whose bbox is not within 1/10 pixel of the rectangle of the affected tile *)
+Lemma cache_image_unaligned ly cached q src :
+  mtiled q = true -> tile_source ly q = Some src -> tiled_aligned q src = false ->
+  exists e, cache_image ly cached q = (Err e, []).
+Proof.
+  unfold tile_source, cache_image. intros Ht. destruct ((mw q =? 0) || (mh q =? 0)); [discriminate|].
+  destruct (affected_level (lg ly) (mb q) (mw q) (mh q)) as [l|] eqn:El; [|discriminate].
+  assert (Hi : negb (bbox_intersects (gx0 (lg ly), gy0 (lg ly), gx1 (lg ly), gy1 (lg ly)) (mb q)) = false).
+  { unfold affected_level in El. destruct (negb (bbox_intersects _ (mb q))); [discriminate|reflexivity]. }
+  rewrite Hi.
+  destruct (affected_level_tiles (lg ly) (mb q) l) as [s nx ny tiles|]; [|discriminate].
+  intros E Ha. inversion E; subst s. rewrite Ht, Ha. simpl.
+  destruct (over_tile_limit ly (nx * ny)); [eauto|]. destruct (1 <? nx * ny); eauto.
+Qed.
+
+Lemma serve_map_tiled_unaligned mp se ly cached q q1 src :
+  srs_limited se q = Some q1 -> mtiled q1 = true -> tile_source ly q1 = Some src -> tiled_aligned q1 src = false ->
+  exists e, serve_map mp se ly cached q = (Err e, []).
+Proof.
+  intros Hs Ht Hsrc Ha. unfold serve_map. destruct (over_pixel_limit mp q); [eauto|]. rewrite Hs. unfold layer_map.
+  destruct (mtiled q1 && negb (mfmt q1 =? lfmt ly)); [eauto|].
+  destruct (mtiled q1 && negb ((mw q1 =? tw (lg ly)) && (mh q1 =? th (lg ly)))); [eauto|].
+  unfold effective_query. rewrite Ht. apply (cache_image_unaligned ly cached q1 src); assumption.
+Qed.
+
+(* what "aligned" means: every border of the request bbox is closer than 1/10 of a request pixel to the border of the
+   tile (x pixel for the first two values, y pixel for the last two, as bbox_equals applies its deltas) *)
+Lemma tiled_aligned_spec q s0 s1 s2 s3 :
+  tiled_aligned q (s0, s1, s2, s3) = true <->
+  let '(b0, b1, b2, b3) := mb q in
+  Z.abs (b0 - s0) * (mw q * 10) < Z.abs (b2 - b0) /\ Z.abs (b1 - s1) * (mw q * 10) < Z.abs (b2 - b0) /\
+  Z.abs (b2 - s2) * (mh q * 10) < Z.abs (b3 - b1) /\ Z.abs (b3 - s3) * (mh q * 10) < Z.abs (b3 - b1).
+Proof.
+  unfold tiled_aligned. destruct (mb q) as [[[b0 b1] b2] b3]. cbv beta iota.
+  rewrite !Bool.andb_true_iff, !Z.ltb_lt. tauto.
+Qed.
+
+(* a tiled request that has any effect was aligned with the affected tile *)
+Lemma serve_map_tiled_effects_aligned mp se ly cached q q1 src :
+  srs_limited se q = Some q1 -> mtiled q1 = true -> tile_source ly q1 = Some src ->
+  snd (serve_map mp se ly cached q) <> [] -> tiled_aligned q1 src = true.
+Proof.
+  intros Hs Ht Hsrc Hne. destruct (tiled_aligned q1 src) eqn:Ha; [reflexivity|].
+  destruct (serve_map_tiled_unaligned mp se ly cached q q1 src Hs Ht Hsrc Ha) as [e He].
+  rewrite He in Hne. exfalso. apply Hne. reflexivity.
+Qed.
+
+Lemma serve_map_tiled_effects_addressed mp se ly cached q q1 s0 s1 s2 s3 :
+  srs_limited se q = Some q1 -> mtiled q1 = true -> tile_source ly q1 = Some (s0, s1, s2, s3) ->
+  snd (serve_map mp se ly cached q) <> [] ->
+  let '(b0, b1, b2, b3) := mb q1 in
+  Z.abs (b0 - s0) * (mw q1 * 10) < Z.abs (b2 - b0) /\ Z.abs (b1 - s1) * (mw q1 * 10) < Z.abs (b2 - b0) /\
+  Z.abs (b2 - s2) * (mh q1 * 10) < Z.abs (b3 - b1) /\ Z.abs (b3 - s3) * (mh q1 * 10) < Z.abs (b3 - b1).
+Proof.
+  intros Hs Ht Hsrc Hne. apply tiled_aligned_spec.
+  exact (serve_map_tiled_effects_aligned mp se ly cached q q1 _ Hs Ht Hsrc Hne).
+Qed.
+
 Lemma serve_direct_pixel_limit se q m :
   0 < m < mw q * mh q -> serve_direct (Some m) se q = (Err TooLarge, []).
 Proof.
@@ -687,6 +745,16 @@ Example ex_tile_limit :
   tile_count ex_layer ex_map3 = Some 3 /\ fst (serve_map None None ex_layer [] ex_map3) = Ok /\
   length (snd (serve_map None None ex_layer [] ex_map3)) = 24%nat.
 Proof. vm_compute. repeat split; reflexivity. Qed.
+(* WMS-C: the tile (0, 0, 2) of ex_grid is (0, 0, 640, 640); a tiled request 2 pixels short of its east and north border
+   is refused, the tile itself is served *)
+Example ex_tiled_short :
+  let q := mkMap (0, 0, 620, 620) 64 64 1 true in
+  tile_source ex_layer q = Some (0, 0, 640, 640) /\ tiled_aligned q (0, 0, 640, 640) = false /\
+  serve_map None None ex_layer [] q = (Err NotAligned, []) /\
+  fst (serve_map None None ex_layer [] (mkMap (0, 0, 640, 640) 64 64 1 true)) = Ok /\
+  snd (serve_map None None ex_layer [] (mkMap (0, 0, 640, 640) 64 64 1 true)) <> [].
+Proof. vm_compute. repeat split; discriminate. Qed.
+
 Example ex_pixel_limit :
   serve_map (Some 12287) None ex_layer [] ex_map3 = (Err TooLarge, []) /\ fst (serve_map (Some 12288) None ex_layer [] ex_map3) = Ok.
 Proof. vm_compute. split; reflexivity. Qed.
